@@ -46,7 +46,7 @@ FORMS = [
 FORM = {f[0]: f for f in FORMS}
 
 # ---------------------------------------------------------------- statement kinds
-SIMPLE = ["assign", "aug", "def", "import", "call", "call0", "bscont"]
+SIMPLE = ["assign", "aug", "def", "import", "call", "call0", "bscont", "comment"]
 # compound kind -> number of body positions
 COMPOUND = {"if": 1, "ifelse": 2, "for": 1, "while": 1, "try": 3, "tryraise": 2, "with": 1}
 # kinds with a literal hole
@@ -154,6 +154,10 @@ class Printer:
             self.lit(level, "%s = f19(" % self.v(), ",")
             A((level, "'k'", False))
             A((level, ")", False))
+        elif k == "comment":
+            # a comment-only line may sit at any column: here one column to the right of the left edge, whatever the margin
+            A((0, " # c19: it's a \"note\"", True))
+            A((level, "%s = 'c'" % self.v(), False))
         elif k == "bscont":
             # the literal goes on the continuation line so that every form (incl. comments) is legal
             A((level, "%s = 'w' + \\" % self.v(), False))
